@@ -36,6 +36,12 @@ def judge(spec, inputs, out, ob):
     model = _model(spec)
     env = inputs["env"]
     WD = wd.welldefined(model, lambda x: plspec.P(env, x), lambda a, b: a == b, lambda xs: all(xs), True, False)
+    try:
+        n = C.ns()
+        WD = WD and wd.welldefined_objects(lambda nd: issubclass(nd.__class__, n.puan.variable), plspec.build(n, model, env),
+                                           lambda x: int(x), lambda a, b: a == b, lambda xs: all(xs), True, False)
+    except RecursionError:
+        WD = False
     if out["error"] is not None:
         return bool(WD), "raised %s on a well-defined model" % out["error"] if WD else "raised on an ill-defined model (acceptable)"
     acc = out["errors"] == []
